@@ -926,7 +926,16 @@ do_sock_close(World *w, SRec *s)
 {
 	mark_sock_closing(w, s);
 	evlog("close socket s%d", s->idx);
-	int rv = nng_socket_close(s->s);
+	int rv;
+	{
+		// REM_POST is delivered "no later than the return of its socket's close":
+		// a close that never returns withholds it for good
+		Bounded g("C14", "no_rem_by_close", 30000000000ull,
+		    "nng_socket_close(s%d): the close does not return, so the REM_POST events of its pipes (%d reached ADD_POST) are "
+		    "withheld",
+		    s->idx, s->n_post);
+		rv = nng_socket_close(s->s);
+	}
 	if (rv != 0)
 		h_fatal("nng_socket_close s%d -> %d", s->idx, rv);
 	s->open = false;
